@@ -162,9 +162,6 @@ theorem region_ignores_margins (s : Screen) (c : Call) (m : Option (Nat × Nat))
     region { s with margins := m, mode := md } c = region s c := by
   cases c <;> rfl
 
-theorem dispatch_ED (ps : List Nat) (p : Bool) : csiDispatch 74 ps p = [.eraseInDisplay ps[0]?] := by rfl
-theorem dispatch_EL (ps : List Nat) (p : Bool) : csiDispatch 75 ps p = [.eraseInLine ps[0]?] := by rfl
-theorem dispatch_ECH (ps : List Nat) (p : Bool) : csiDispatch 88 ps p = [.eraseCharacters ps[0]?] := by rfl
 
 /-- non-vacuity: EL 1 at the pending-wrap column of a 3-column screen erases the whole row -/
 example :
